@@ -122,7 +122,8 @@ struct WordOps {
     uint16_t push = 0;     // push W
     uint16_t pop = 0;      // pop W
     uint16_t mov_abl = 0;  // mov b0l, W  (Abl operand value 0 = b0l)
-    bool have_mov = false, have_push = false, have_pop = false, have_abl = false;
+    uint16_t rmw[3] = {0, 0, 0}; // set / rst / chng #imm16, W (read-modify-write through the bit-manipulation unit)
+    bool have_mov = false, have_push = false, have_pop = false, have_abl = false, have_rmw[3] = {false, false, false};
 };
 WordOps find_ops(int w) {
     const std::string wn = layout::words()[w].name;
@@ -135,7 +136,8 @@ WordOps find_ops(int w) {
         bool push = i.form == "push(ArArpSttMod)" || i.form == "push(Register)";
         bool pop = i.form == "pop(ArArpSttMod)" || i.form == "pop(Register)";
         bool abl = (i.form == "mov(Abl,ArArp)" || i.form == "mov(Abl,SttMod)") && i.operands[0].value == 0;
-        if (!mov && !push && !pop && !abl)
+        bool rmw = (i.form == "alb(AlbOp,Imm16,SttMod)" || i.form == "alb(AlbOp,Imm16,Register)") && i.operands[0].value <= 2;
+        if (!mov && !push && !pop && !abl && !rmw)
             continue;
         auto t = Teakra::Disassembler::GetTokenList((uint16_t)op, 0);
         if (t.empty() || t.back() != wn)
@@ -155,6 +157,10 @@ WordOps find_ops(int w) {
         if (abl && !o.have_abl) {
             o.mov_abl = (uint16_t)op;
             o.have_abl = true;
+        }
+        if (rmw && !o.have_rmw[i.operands[0].value]) {
+            o.rmw[i.operands[0].value] = (uint16_t)op;
+            o.have_rmw[i.operands[0].value] = true;
         }
     }
     return o;
@@ -244,6 +250,37 @@ vf::Result sub_D1i(int w, uint16_t v, uint64_t seed) {
                                         std::string("mov b0l (= ") + vf::hex(v) + "), " + wn + ": state differs from the layout (got vs expected) " + d);
             }
         }
+    }
+    for (int k = 0; k < 3; ++k) {
+        // set / rst / chng #v, W: the word is read, combined with the immediate and written back; what reads back afterwards is
+        // the written value (also when that equals the old one, and also for the word that holds the flags the operation sets)
+        if (!o.have_rmw[k])
+            continue;
+        icase::ICase c;
+        c.st = st;
+        c.opcode = o.rmw[k];
+        c.expansion = v;
+        icase::IResult r = sut().exec(c);
+        if (r.outcome != 0)
+            continue;
+        uint16_t old = layout::read(w, st);
+        uint16_t res = k == 0 ? (uint16_t)(old | v) : (k == 1 ? (uint16_t)(old & ~v) : (uint16_t)(old ^ v));
+        flat::State before = st;
+        // the operation's own zero / minus flags are instruction semantics (C01); they are part of this comparison only through
+        // the word under test: a word that shows them must read back the written value
+        before[flat::F_fz] = r.after[flat::F_fz];
+        before[flat::F_fm] = r.after[flat::F_fm];
+        flat::State want = layout::write(w, before, res);
+        want[flat::F_pc] = st[flat::F_pc] + 2;
+        if (!(r.after == want)) {
+            std::string d = flat::diff(r.after, want);
+            static const char* nm[] = {"set", "rst", "chng"};
+            return vf::Result::fail(std::string("C20:D1i:rmw:") + nm[k] + ":" + wn + ":" + d.substr(0, d.find(':')),
+                                    std::string(nm[k]) + " #" + vf::hex(v) + ", " + wn + " (word was " + vf::hex(old) + ", written " + vf::hex(res) +
+                                        "): state differs from the layout (got vs expected) " + d);
+        }
+        if (res == old)
+            vf::klass("D1i: read-modify-write that leaves the word unchanged");
     }
     if (std::string(wn) == "icr") { // mov #imm5, icr replaces the low five bits only (bit 4 is the write-one-to-clear view of lp)
         static const int base = optable::find_word("mov_icr(Imm5)", {0});
